@@ -103,6 +103,19 @@ def cases(tier, rng):
                 ops += ["send 616e73", "wire a"]
                 out.append("w%d sock REP / %s" % (k, " / ".join(ops)))
                 k += 1
+    # a long run of messages (several hundred) each picked up by a recv that is polled ONCE and then dropped: whatever the
+    # count, nothing is lost, duplicated or reordered
+    for t in ("PULL", "SUB", "DEALER", "ROUTER", "REP", "XPUB"):
+        pt = scen.PEER[t]
+        nmsg = 200 if tier == "quick" else 700
+
+        def mk(i_):
+            tag = b"%04d" % i_
+            return [b"", tag] if t == "REP" else [b"\x01" + tag] if t == "XPUB" else [tag]
+        feed = W.tok(b"".join(W.msg(mk(i_)) for i_ in range(nmsg)))
+        ops = ["attach a %s" % pt, "feed a " + feed] + ["recvp 1"] * (nmsg + 30) + ["recv"] * 3
+        out.append("c%d.%d sock %s / %s" % (k, nmsg, t, " / ".join(ops)))
+        k += 1
     # a recv is polled and abandoned; then a connection under the SAME identity as a still registered one arrives and sends:
     # the socket is as usable as if the abandoned call had never been made - the new connection's messages come out
     for t in ("PULL", "SUB", "DEALER", "ROUTER", "REP", "XPUB"):
@@ -145,6 +158,18 @@ def judge(line, obs, orc):
     kind = line.split()[0][0]
     if "r=lost-wakeup" in obs:
         return "a recv parked after an abandoned recv was never woken although the bytes of a complete message had arrived (socket unusable for a task awaiting it)"
+    if kind == "c":
+        nmsg = int(line.split()[0].split(".")[1])
+        got = []
+        for op, tk in po:
+            if op[0] in ("recv", "recvp") and tk and "=ok:" in tk:
+                got.append(tk.split("=ok:", 1)[1].split(";")[-1][-8:])
+        want = [(b"%04d" % i_).hex() for i_ in range(nmsg)]
+        if got != want:
+            miss = [bytes.fromhex(w).decode() for w in want if w not in got][:6]
+            return ("%d messages each picked up by a recv polled once and dropped: %d came out; missing %s%s" %
+                    (nmsg, len(got), miss, "" if sorted(got) == got else "; order changed"))
+        return None
     if kind == "k":
         last = [tk for op, tk in po if op[0] == "recv"][-1]
         if not (last.startswith("r=ok:") and last.endswith("6c617465")):
@@ -213,7 +238,7 @@ def judge(line, obs, orc):
 
 
 def compare_filter(line):
-    return not line.startswith(("b", "k"))      # (large payloads: the extracted model is quadratic in the stream length)
+    return not line.startswith(("b", "k", "c"))      # (large payloads: the extracted model is quadratic in the stream length)
 
 
 def model_cases(case_lines):
